@@ -1,4 +1,6 @@
 import HsVerif.Proofs.SysChain
+import HsVerif.Proofs.SysChainGlue
+import HsVerif.Proofs.SysChainAll
 import HsVerif.Props.C05Cover
 /-! C05, task S12 — FROM A SYNCHRONISED VIEW TO A NEW COMMIT, starting in any state that satisfies the phase
 predicate (in particular: reachable states after arbitrary faults).  Property theorems; proofs in Proofs/SysChain.lean.
@@ -15,14 +17,15 @@ the model, FIXED leader `L` (`HappyCfg C L`).  Round-robin leaders are NOT cover
    Rounds, messages delivered in ANY order within the round: `round_votes` (A ⟶ B), `round_proposals` (B ⟶ A), `one_view`.
 3. `synced_commits`: THREE further views (derived from `commitRule`: both rule sets commit the block three consecutive
    certified views below the proposal) after phase A at `(w, B)` every replica has `committed = B`.
-4. `first_proposal_after_timeouts_votes`: a replica that entered view `v + 1` on a timeout certificate receives the
-   leader's proposal on an older certified block and ends up synchronised (`SyncR`) with a walk from the new block —
-   the replica-level half of the link to the recovery theorem for non-leaders (not lifted to the system).
-   `commit_after_recovery_partial`: `recovery_from_reachable` composed with `synced_commits` — within `1 + 3` views
-   every replica commits the block proposed after the recovery; the link "the recovery round followed by the delivery
-   of the proposals ends in phase A" is an EXPLICIT HYPOTHESIS (`hsync`), not proved in general (see the report);
-   on the kernel-evaluated run below it holds.
-5. Non-vacuity: `synced_commits_nonvacuous` + `recovered_run_commits` — four replicas, four views of progress (locks
+4. After a recovery round: `first_proposal_after_timeouts_votes` (a replica that entered view `v + 1` on a timeout
+   certificate receives the leader's proposal on an older certified block and ends up synchronised, with a walk from the
+   new block); `recovery_reaches_synced` (task S12b): under the hypotheses of `recovery_from_reachable` and `SyncPre`
+   (Proofs/SysChainGlue.lean) the recovery round followed by the delivery of the proposals ends in phase A at `(v + 1, b')`;
+   `commit_after_recovery`: within `1 + 3` views every replica commits the block proposed after the recovery — no
+   hypothesis `hsync` any more; `commit_after_recovery_partial` (the earlier conditional form) is kept.
+6. `round_votes_all`, `one_view_all`, `synced_commits_all`, `commit_after_recovery_all`: the same with EVERY message of the
+   three chain views delivered — votes and new-view messages, any order (Proofs/SysChainAll.lean).
+5. Non-vacuity: `synced_commits_nonvacuous` + `recovered_run_commits` + `cv_syncPre` + `commit_after_recovery_nonvacuous` — four replicas, four views of progress (locks
    `P2`, committed `P1`), the votes for `P4` lost, everybody times out, recovery round, proposals: phase A at `(5, P5)`
    with `P5` on top of `P3`; three views later (different delivery orders in every round) everybody has committed `P5`. -/
 set_option linter.unusedVariables false
@@ -264,6 +267,143 @@ theorem commit_after_recovery_partial (k : Keys) (C : SysCfg) (L : Nat) (hC : Ha
   obtain ⟨_, s, _, d2, d3, _⟩ := c6 j hj
   exact ⟨s, d2, d3, by rw [d3]; exact r3⟩
 
+
+/-- **Recovery reaches phase A** (item 3; fixed leader `L`).  Hypotheses: those of `recovery_from_reachable` with `ℓ = L`
+(`σ0` reachable, `CA'`, `KeysOK`, `RecPre`, `RecStart`, the timeout messages delivered in ANY order `msgs`), `HappyCfg C L`,
+and `SyncPre C D s0 N` (Proofs/SysChainGlue.lean; its docstring says which clauses are synchrony-after-GST facts and which
+are bookkeeping).  Then the proposals in flight are delivered in ANY order `ordP`.  Conclusion: for the block `b'` of view
+`v + 1` that the leader proposed on the highest high QC `D.hq i` of a quorum (`Top`), the system is in phase A at
+`(v + 1, b')` (`PhaseA … b' (D.hb i)`), the votes for `b'` are in flight (`VotesFly`), and the committer of every replica can
+walk from `b'` down to its committed block (`WalkZ b'`).  Tied to the existing development: the invariant `RecInv` /
+`rec_step` of Proofs/SysRecovery.lean is reused and sharpened by `RecX` (the leader's exact state, the exact proposals
+in flight); `cover_of_reach` supplies `RuleReady`, `top_block_covers_lock` the bound on the locks. -/
+theorem recovery_reaches_synced (k : Keys) (C : SysCfg) (L : Nat) (hC : HappyCfg C L) (D : RecData) (s0 : Nat → RState)
+    (σ0 : SysState) (blk : Hash → Block) (hk : KeysOK k) (hr : Reach k C σ0) (hca : CA' σ0 blk)
+    (hP : RecPre k C D s0 L σ0.truth) (h0 : RecStart C s0 σ0.truth σ0)
+    (msgs : List (Nat × Nat)) (hm : FullOrder C msgs) (N : Nat) (hY : SyncPre C D s0 N)
+    (ordP : List Nat) (hordP : OthersOrder C L ordP) :
+    ∃ (i : Nat) (b' : Block) (bt : Nat → Nat),
+      i ∈ C.honest ∧ Top C D i ∧ b'.view = D.v + 1 ∧ b'.qc = D.hq i ∧ b'.proposer = L ∧
+      PhaseA C L (D.v + 1) (N + 2) b' (D.hb i) bt (proposalRound k C ordP (recoveryRound k C D σ0 msgs)).1 ∧
+      VotesFly C L b'.hash bt (proposalRound k C ordP (recoveryRound k C D σ0 msgs)).2 ∧
+      ∀ j ∈ C.honest, ∃ s, (proposalRound k C ordP (recoveryRound k C D σ0 msgs)).1.reps.lookup j = some s ∧ WalkZ b' s :=
+  recovery_reaches_phaseA k C L hC D s0 σ0 blk hk hr hca hP h0 msgs hm N hY ordP hordP
+
+/-- **Commit after recovery** (fixed leader; chained or simplified HotStuff).  From ANY reachable state `σ0` that satisfies
+the synchrony hypotheses of `recovery_from_reachable` (all explicit: `RecPre`, `RecStart`, `CA'`, `KeysOK`) and `SyncPre`:
+the timeout messages are delivered in any order (`recoveryRound`), then the proposals in flight (`proposalRound`), then
+three views of the chain follow (`chainView`, votes and proposals of every view in any order; no timer fires).  Then EVERY
+replica has committed `b'` — the block of view `v + 1` that the leader proposed after the recovery, on the highest high QC
+of a quorum — i.e. within `1 + 3` views after the view of the timeouts, and `committed.view = v + 1` is above everything
+committed before (`SyncPre.committed`: `≤ v`). -/
+theorem commit_after_recovery (k : Keys) (C : SysCfg) (L : Nat) (hC : HappyCfg C L) (D : RecData) (s0 : Nat → RState)
+    (σ0 : SysState) (blk : Hash → Block) (hk : KeysOK k) (hr : Reach k C σ0) (hca : CA' σ0 blk)
+    (hP : RecPre k C D s0 L σ0.truth) (h0 : RecStart C s0 σ0.truth σ0)
+    (msgs : List (Nat × Nat)) (hm : FullOrder C msgs) (N : Nat) (hY : SyncPre C D s0 N)
+    (ordP v1 p1 v2 p2 v3 p3 : List Nat) (hordP : OthersOrder C L ordP)
+    (hv1 : OthersOrder C L v1) (hp1 : OthersOrder C L p1) (hv2 : OthersOrder C L v2)
+    (hp2 : OthersOrder C L p2) (hv3 : OthersOrder C L v3) (hp3 : OthersOrder C L p3) :
+    ∃ (i : Nat) (b' : Block), i ∈ C.honest ∧ Top C D i ∧ b'.view = D.v + 1 ∧ b'.qc = D.hq i ∧ b'.proposer = L ∧
+      ∀ j ∈ C.honest, ∃ s,
+        (chainView k C v3 p3 (chainView k C v2 p2 (chainView k C v1 p1
+          (proposalRound k C ordP (recoveryRound k C D σ0 msgs))))).1.reps.lookup j = some s ∧
+        s.committed = b' ∧ s.committed.view = D.v + 1 ∧ (s0 j).committed.view < s.committed.view := by
+  obtain ⟨i, b', bt, r1, r2, r3, r4, r5, a1, a2, a3⟩ :=
+    recovery_reaches_synced k C L hC D s0 σ0 blk hk hr hca hP h0 msgs hm N hY ordP hordP
+  obtain ⟨B1, B2, B3, bt3, _, _, _, _, _, c6⟩ := synced_commits k C L (D.v + 1) (N + 2) hC b' (D.hb i) bt _
+    (by have := hY.bound; omega) a1 a2 a3 v1 p1 v2 p2 v3 p3 hv1 hp1 hv2 hp2 hv3 hp3
+  refine ⟨i, b', r1, r2, r3, r4, r5, ?_⟩
+  intro j hj
+  obtain ⟨_, s, _, d2, d3, _⟩ := c6 j hj
+  have hv : s.committed.view = D.v + 1 := by rw [d3]; exact r3
+  exact ⟨s, d2, d3, hv, by rw [hv]; have := hY.committed j hj; omega⟩
+
+
+/-! ## 6. every message of a round delivered: the new-view messages woven into the rounds (Proofs/SysChainAll.lean) -/
+
+/-- **Round A ⟶ B with ALL messages**: the votes and the new-view messages in flight reach the leader in ANY order `items`
+(`(true, j)`: the vote of `j`; `(false, i)`: the new-view message of `i`); the votes are those of pairwise different
+replicas, enough for a quorum; if a new-view message is among them the leader can check its certificate (`NVok`) -/
+theorem round_votes_all (k : Keys) (C : SysCfg) (L w N : Nat) (hC : HappyCfg C L) (B P : Block) (bt : Nat → Nat)
+    (σ : SysState) (hN : N + 12 ≤ 99999) (hA : PhaseA C L w N B P bt σ)
+    (items : List (Bool × Nat)) (hnd : (voteIds items).Nodup) (hord : ∀ j ∈ voteIds items, j ∈ C.honest ∧ j ≠ L)
+    (hlen : (C.rcfg L).cfg.quorum ≤ (voteIds items).length + 1)
+    (hnv : (∃ p ∈ items, p.1 = false) → NVok k C L w B σ) :
+    ∃ B' : Block,
+      PhaseB C L w N B' B P (deliverAll k C (σ, []) (items.map (abMsg C L B bt))).1 ∧
+      (deliverAll k C (σ, []) (items.map (abMsg C L B bt))).2 = (othersOf C L).map (propMsg L B') ∧
+      (∀ j, j ≠ L → (deliverAll k C (σ, []) (items.map (abMsg C L B bt))).1.reps.lookup j = σ.reps.lookup j) ∧
+      (∀ b a, σ.truth.lookup b = some a →
+        (deliverAll k C (σ, []) (items.map (abMsg C L B bt))).1.truth.lookup b = some a) ∧
+      ∃ sL0 sL, σ.reps.lookup L = some sL0 ∧
+        (deliverAll k C (σ, []) (items.map (abMsg C L B bt))).1.reps.lookup L = some sL ∧
+        CommitStep w B P sL0 sL :=
+  HsVerif.Model.chain_round_AB_all k C L w N hC B P bt σ hN hA items hnd hord hlen hnv
+
+/-- **One view of the chain, every message in flight delivered, in any order.**  Phase A at `(w, B)`; the messages in
+flight are exactly the votes for `B` of the other replicas and (`nv = true`; not in the first view after a recovery) their
+new-view messages (`x.2 = (roundItems nv ordPrev).map …`); `items` is ANY permutation of them (`msgs = items.map …` is then a
+permutation of `x.2`); then the proposals are delivered in any order `ordP`.  Afterwards: phase A at `(w + 1, B')`, the
+messages in flight are exactly the new-view messages and votes for `B'`, the leader can check their certificate (`NVok`),
+and every replica's committer has made its step. -/
+theorem one_view_all (k : Keys) (C : SysCfg) (L w N : Nat) (hC : HappyCfg C L) (B P : Block) (bt : Nat → Nat)
+    (x : SysState × Msgs) (hN : N + 12 ≤ 99999) (hA : PhaseA C L w N B P bt x.1)
+    (nv : Bool) (ordPrev : List Nat) (hprev : OthersOrder C L ordPrev)
+    (hpool : x.2 = (roundItems nv ordPrev).map (abMsg C L B bt)) (hnvok : nv = true → NVok k C L w B x.1)
+    (items : List (Bool × Nat)) (hperm : items.Perm (roundItems nv ordPrev)) (ordP : List Nat) (hP : OthersOrder C L ordP) :
+    (items.map (abMsg C L B bt)).Perm x.2 ∧
+    ∃ (B' : Block) (bt' : Nat → Nat),
+      PhaseA C L (w + 1) (N + 3) B' B bt' (chainViewAll k C (items.map (abMsg C L B bt)) ordP x).1 ∧
+      (chainViewAll k C (items.map (abMsg C L B bt)) ordP x).2 = (roundItems true ordP).map (abMsg C L B' bt') ∧
+      NVok k C L (w + 1) B' (chainViewAll k C (items.map (abMsg C L B bt)) ordP x).1 ∧ Link B' B ∧
+      ∀ j ∈ C.honest, ∃ s0 s, x.1.reps.lookup j = some s0 ∧
+        (chainViewAll k C (items.map (abMsg C L B bt)) ordP x).1.reps.lookup j = some s ∧ CommitStep w B P s0 s :=
+  HsVerif.Model.chain_view_all k C L w N hC B P bt x hN hA nv ordPrev hprev hpool hnvok items hperm ordP hP
+
+/-- **From a synchronised view to a commit, every message delivered** (votes AND new-view messages of every view, in any
+order, also chosen view by view): three views after phase A at `(w, B)` every replica has committed `B`. -/
+theorem synced_commits_all (k : Keys) (C : SysCfg) (L w N : Nat) (hC : HappyCfg C L) (B P : Block) (bt : Nat → Nat)
+    (x : SysState × Msgs) (hN : N + 18 ≤ 99999) (hA : PhaseA C L w N B P bt x.1)
+    (nv : Bool) (ordPrev : List Nat) (hprev : OthersOrder C L ordPrev)
+    (hpool : x.2 = (roundItems nv ordPrev).map (abMsg C L B bt)) (hnvok : nv = true → NVok k C L w B x.1)
+    (hwalk : ∀ j ∈ C.honest, ∃ s, x.1.reps.lookup j = some s ∧ WalkZ B s)
+    (i1 : List (Bool × Nat)) (p1 : List Nat) (h1 : i1.Perm (roundItems nv ordPrev)) (hp1 : OthersOrder C L p1) :
+    ∃ (B1 : Block) (bt1 : Nat → Nat), Link B1 B ∧
+      ∀ (i2 : List (Bool × Nat)) (p2 : List Nat), i2.Perm (roundItems true p1) → OthersOrder C L p2 →
+      ∃ (B2 : Block) (bt2 : Nat → Nat), Link B2 B1 ∧
+        ∀ (i3 : List (Bool × Nat)) (p3 : List Nat), i3.Perm (roundItems true p2) → OthersOrder C L p3 →
+        ∃ (B3 : Block) (bt3 : Nat → Nat), Link B3 B2 ∧
+          PhaseA C L (w + 3) (N + 9) B3 B2 bt3
+            (chainViewAll k C (i3.map (abMsg C L B2 bt2)) p3 (chainViewAll k C (i2.map (abMsg C L B1 bt1)) p2
+              (chainViewAll k C (i1.map (abMsg C L B bt)) p1 x))).1 ∧
+          ∀ j ∈ C.honest, ∃ s0 s, x.1.reps.lookup j = some s0 ∧
+            (chainViewAll k C (i3.map (abMsg C L B2 bt2)) p3 (chainViewAll k C (i2.map (abMsg C L B1 bt1)) p2
+              (chainViewAll k C (i1.map (abMsg C L B bt)) p1 x))).1.reps.lookup j = some s ∧
+            s.committed = B ∧ s0.committed.view < s.committed.view :=
+  HsVerif.Model.synced_commits_all k C L w N hC B P bt x hN hA nv ordPrev hprev hpool hnvok hwalk i1 p1 h1 hp1
+
+/-- **Commit after recovery, every message of the three chain views delivered** (votes and new-view messages, any order,
+also chosen view by view).  Hypotheses as `commit_after_recovery`.  (The new-view messages of the TIMEOUT round — they
+carry timeout certificates — are not delivered: `proposalRound` takes the proposals only.) -/
+theorem commit_after_recovery_all (k : Keys) (C : SysCfg) (L : Nat) (hC : HappyCfg C L) (D : RecData) (s0 : Nat → RState)
+    (σ0 : SysState) (blk : Hash → Block) (hk : KeysOK k) (hr : Reach k C σ0) (hca : CA' σ0 blk)
+    (hP : RecPre k C D s0 L σ0.truth) (h0 : RecStart C s0 σ0.truth σ0)
+    (msgs : List (Nat × Nat)) (hm : FullOrder C msgs) (N : Nat) (hY : SyncPre C D s0 N)
+    (ordP : List Nat) (hordP : OthersOrder C L ordP)
+    (i1 : List (Bool × Nat)) (p1 : List Nat) (h1 : i1.Perm (roundItems false ordP)) (hp1 : OthersOrder C L p1) :
+    ∃ (i : Nat) (b' : Block) (bt : Nat → Nat), i ∈ C.honest ∧ Top C D i ∧ b'.view = D.v + 1 ∧ b'.qc = D.hq i ∧ b'.proposer = L ∧
+      (i1.map (abMsg C L b' bt)).Perm (proposalRound k C ordP (recoveryRound k C D σ0 msgs)).2 ∧
+      ∃ (B1 : Block) (bt1 : Nat → Nat),
+      ∀ (i2 : List (Bool × Nat)) (p2 : List Nat), i2.Perm (roundItems true p1) → OthersOrder C L p2 →
+      ∃ (B2 : Block) (bt2 : Nat → Nat),
+        ∀ (i3 : List (Bool × Nat)) (p3 : List Nat), i3.Perm (roundItems true p2) → OthersOrder C L p3 →
+        ∀ j ∈ C.honest, ∃ s,
+          (chainViewAll k C (i3.map (abMsg C L B2 bt2)) p3 (chainViewAll k C (i2.map (abMsg C L B1 bt1)) p2
+            (chainViewAll k C (i1.map (abMsg C L b' bt)) p1
+              (proposalRound k C ordP (recoveryRound k C D σ0 msgs))))).1.reps.lookup j = some s ∧
+          s.committed = b' ∧ s.committed.view = D.v + 1 ∧ (s0 j).committed.view < s.committed.view :=
+  HsVerif.Model.commit_after_recovery_all_core k C L hC D s0 σ0 blk hk hr hca hP h0 msgs hm N hY ordP hordP i1 p1 h1 hp1
+
 /-! ## 5. non-vacuity: a kernel-evaluated run -/
 section NonVacuity
 
@@ -420,6 +560,83 @@ theorem recovered_run_commits :
     obtain ⟨_, s, _, d2, d3, _⟩ := c6 j hj
     exact ⟨s, d2, d3⟩
   · decide +kernel
+
+
+/-- `SyncPre` for one replica of `cvRun`, as a boolean (every `Top` block of `cvData` is `P3`, on top of `P2`) -/
+def preSyncOK (s : RState) : Bool :=
+  decide (s.chain.fetchable.length = 0) && decide (s.waitingProp.length = 0) && namesOK 4 s &&
+  decide (s.chain.blocks.lookup cvP3.qc.hash = some cvP2) && decide (cvP2.view ≤ 4) && decide (s.committed.view ≤ 4) &&
+  decide (2 * s.chain.blocks.length + 5 ≤ 1000) &&
+  cmWalk (s.chain.blocks.length + 2) s.chain.blocks s.committed.view cvP3
+
+def cvSyncOK : Bool := recCfg.honest.all fun j => preSyncOK (cvS0 j)
+
+set_option maxRecDepth 100000 in
+theorem cvSyncOK_true : cvSyncOK = true := by decide +kernel
+
+/-- **the run satisfies `SyncPre`** (with `recovery_from_reachable_nonvacuous`: all hypotheses of `commit_after_recovery`) -/
+theorem cv_syncPre : SyncPre recCfg cvData cvS0 1000 := by
+  have h : ∀ j ∈ recCfg.honest, preSyncOK (cvS0 j) = true := fun j hj => List.all_eq_true.mp cvSyncOK_true j hj
+  have hh : ∀ j ∈ recCfg.honest,
+      (cvS0 j).chain.fetchable.length = 0 ∧ (cvS0 j).waitingProp.length = 0 ∧ namesOK 4 (cvS0 j) = true ∧
+      (cvS0 j).chain.blocks.lookup cvP3.qc.hash = some cvP2 ∧ cvP2.view ≤ 4 ∧ (cvS0 j).committed.view ≤ 4 ∧
+      2 * (cvS0 j).chain.blocks.length + 5 ≤ 1000 ∧
+      cmWalk ((cvS0 j).chain.blocks.length + 2) (cvS0 j).chain.blocks (cvS0 j).committed.view cvP3 = true := by
+    intro j hj
+    have := h j hj
+    simp only [preSyncOK, Bool.and_eq_true, decide_eq_true_eq] at this
+    obtain ⟨⟨⟨⟨⟨⟨⟨h1, h2⟩, h3⟩, h4⟩, h5⟩, h6⟩, h7⟩, h8⟩ := this
+    exact ⟨h1, h2, h3, h4, h5, h6, h7, h8⟩
+  refine ⟨fun j hj => List.eq_nil_of_length_eq_zero (hh j hj).1, fun j hj => List.eq_nil_of_length_eq_zero (hh j hj).2.1,
+    fun j hj u hu => names_of_ok 4 _ (hh j hj).2.2.1 u hu, fun j hj i _ _ => ⟨cvP2, (hh j hj).2.2.2.1, (hh j hj).2.2.2.2.1⟩,
+    fun j hj => (hh j hj).2.2.2.2.2.1, fun j hj => (hh j hj).2.2.2.2.2.2.1, fun j hj i _ _ => (hh j hj).2.2.2.2.2.2.2, by decide⟩
+
+
+/-- **`commit_after_recovery` applies to the run and agrees with the kernel evaluation**: the recovery round in the order
+of `syncRound`, the proposals to replicas 2, 3, 4, three views with different delivery orders — every replica has
+committed the block proposed after the recovery, and that block is `P5` (`nvB`, what `recovered_run_commits` evaluates) -/
+theorem commit_after_recovery_nonvacuous :
+    ∃ b' : Block, b'.view = 5 ∧ b' = nvB ∧
+      ∀ j ∈ recCfg.honest, ∃ s,
+        (chainView exKeys recCfg [2, 3, 4] [4, 3, 2] (chainView exKeys recCfg [4, 2, 3] [2, 3, 4]
+          (chainView exKeys recCfg [3, 2, 4] [3, 4, 2] nvA))).1.reps.lookup j = some s ∧
+        s.committed = b' ∧ (cvS0 j).committed.view < s.committed.view := by
+  unfold nvA
+  obtain ⟨hk, hr, hca, hP, h0, hx, _⟩ := recovery_from_reachable_nonvacuous
+  have ho : ∀ l : List Nat, l.Nodup → (∀ j ∈ l, j ∈ [2, 3, 4]) → (∀ j ∈ [2, 3, 4], j ∈ l) → OthersOrder recCfg 1 l := by
+    intro l h1 h2 h3
+    refine ⟨h1, ?_, ?_⟩
+    · intro j hj
+      have := h2 j hj
+      simp only [List.mem_cons, List.not_mem_nil, or_false] at this
+      rcases this with rfl | rfl | rfl <;> exact ⟨by decide, by decide⟩
+    · intro j hj hne
+      apply h3
+      simp only [recCfg, List.mem_cons, List.not_mem_nil, or_false] at hj
+      rcases hj with rfl | rfl | rfl | rfl
+      · exact absurd rfl hne
+      all_goals decide
+  obtain ⟨i, b', _, _, r3, _, _, r6⟩ := commit_after_recovery exKeys recCfg 1 nvHappy cvData cvS0 cvRun.1 cvBlk hk hr hca hP h0
+    (senderMajor recCfg) (senderMajor_full recCfg (by decide)) 1000 cv_syncPre
+    [2, 3, 4] [3, 2, 4] [3, 4, 2] [4, 2, 3] [2, 3, 4] [2, 3, 4] [4, 3, 2]
+    (ho _ (by decide) (by decide) (by decide))
+    (ho _ (by decide) (by decide) (by decide)) (ho _ (by decide) (by decide) (by decide))
+    (ho _ (by decide) (by decide) (by decide)) (ho _ (by decide) (by decide) (by decide))
+    (ho _ (by decide) (by decide) (by decide)) (ho _ (by decide) (by decide) (by decide))
+  have hrr : recoveryRound exKeys recCfg cvData cvRun.1 (senderMajor recCfg) = syncRound exKeys recCfg cvRun := by
+    unfold recoveryRound syncRound; rw [hx]
+  rw [hrr] at r6
+  have hb : b' = nvB := by
+    obtain ⟨s, e1, e2, _⟩ := r6 1 (by decide)
+    obtain ⟨s', e1', e2'⟩ := recovered_run_commits.1 1 (by decide)
+    unfold nvA at e1'
+    have hs : s = s' := Option.some.inj (e1.symm.trans e1')
+    rw [← e2, hs, e2']
+  refine ⟨b', r3, hb, ?_⟩
+  intro j hj
+  obtain ⟨s, e1, e2, _, e4⟩ := r6 j hj
+  exact ⟨s, e1, e2, e4⟩
+
 
 end NonVacuity
 
